@@ -51,8 +51,13 @@ func replay(job *Job, f sym.Finding, name string) (string, string) {
 	ovPath := filepath.Join(dir, "overlay.json")
 	os.WriteFile(ovPath, ov, 0644)
 	to := job.ReplayTO
-	script := fmt.Sprintf("#!/bin/sh\ncd %s && VERIF_CEX=%s GOFLAGS=-mod=mod GOPROXY=off GOSUMDB=off GOTOOLCHAIN=local timeout %d go test -vet=off -count=1 -timeout %ds -overlay %s -run '^TestVerifReplay$' %s\n",
-		job.Repo, cexPath, to+60, to, ovPath, job.Pkg)
+	raceFlag := ""
+	if f.Kind == "race" {
+		raceFlag = "-race "
+		to += 60
+	}
+	script := fmt.Sprintf("#!/bin/sh\ncd %s && VERIF_CEX=%s GOFLAGS=-mod=mod GOPROXY=off GOSUMDB=off GOTOOLCHAIN=local timeout %d go test %s-vet=off -count=1 -timeout %ds -overlay %s -run '^TestVerifReplay$' %s\n",
+		job.Repo, cexPath, to+120, raceFlag, to, ovPath, job.Pkg)
 	os.WriteFile(filepath.Join(dir, "replay.sh"), []byte(script), 0755)
 	cmd := exec.Command("/bin/sh", filepath.Join(dir, "replay.sh"))
 	t0 := time.Now()
@@ -61,6 +66,10 @@ func replay(job *Job, f sym.Finding, name string) (string, string) {
 	os.WriteFile(filepath.Join(dir, "output.txt"), out, 0644)
 	verdict := "NOT-REPRODUCED"
 	switch {
+	case f.Kind == "race":
+		if strings.Contains(txt, "WARNING: DATA RACE") {
+			verdict = "REPRODUCED(race detector)"
+		}
 	case strings.Contains(txt, "VERIF-ASSUME-VIOLATED"):
 		verdict = "INVALID-MODEL(assume violated)"
 	case strings.Contains(txt, "VERIF-ASSERT"):
@@ -78,7 +87,7 @@ func replay(job *Job, f sym.Finding, name string) (string, string) {
 	}
 	line := ""
 	for _, l := range strings.Split(txt, "\n") {
-		if strings.Contains(l, "panic") || strings.Contains(l, "VERIF-") || strings.Contains(l, "fatal error") {
+		if strings.Contains(l, "panic") || strings.Contains(l, "VERIF-") || strings.Contains(l, "fatal error") || strings.Contains(l, "DATA RACE") {
 			line = strings.TrimSpace(l)
 			break
 		}
